@@ -55,6 +55,11 @@ TEMPLATES = {
     # EPSV with a network protocol argument (RFC 2428: 1 = IPv4, 2 = IPv6, anything else), refused or not, before any listener
     "epsv_args": LOGIN + [["cmd", "EPSV 2"], ["cmd", "EPSV 1"], ["cmd", "EPSV ALL"], ["cmd", "EPSV 3"], ["quit"]],
     "epsv_arg_then_cut": LOGIN + [["cmd", "EPSV 2"], ["cmd", "EPSV 2"], ["cut", "rst"]],
+    # the session ends while its data connection still holds unsent bytes for a peer that keeps it open and does not read
+    "stalled_download_then_gone": LOGIN + [["pasv"], ["data"], ["raw", b"RETR /huge.bin\r\n".hex(), "noreply"], ["sleep", 0.05],
+                                           ["cut_control", "rst"]],
+    "stalled_download_then_quit": LOGIN + [["epsv"], ["data"], ["raw", b"RETR /huge.bin\r\n".hex(), "noreply"], ["sleep", 0.05],
+                                           ["cut_control", "fin"]],
 }
 # a server without anonymous fall-back: a second USER with an unknown name is rejected (530) and leaves the session without a user
 ALICE = [["connect"], ["login", "alice", "pw"]]
@@ -100,7 +105,7 @@ async def execute(net, hyg, plan):
     ports_arg = {"list": lambda: list(conf), "tuple": lambda: tuple(conf), "generator": lambda: (p_ for p_ in conf),
                  "iterator": lambda: iter(conf), "map": lambda: map(int, [str(p_) for p_ in conf]),
                  "range": lambda: range(conf[0], conf[-1] + 1) if conf else range(0)}[shape]()
-    world = W.World(net, tree={"/f.bin": b"x" * 5000}, data_ports=ports_arg, host=host, users=users)
+    world = W.World(net, tree={"/f.bin": b"x" * 5000, "/huge.bin": b"h" * 400000}, data_ports=ports_arg, host=host, users=users)
     await world.start()
     server = world.server
     for port, plan_errs in (plan.get("faults") or {}).items():
